@@ -127,6 +127,12 @@ impl Thread {
             }
         }
 
+        if thread.callstack.is_empty() {
+            return Err(StoryError::BadJson(
+                "Thread without call stack elements".to_owned(),
+            ));
+        }
+
         if let Some(prev_content_obj_path) =
             j_obj.get("previousContentObject").and_then(|p| p.as_str())
         {
@@ -438,6 +444,10 @@ impl CallStack {
                 .ok_or(StoryError::BadJson("Invalid thread object".to_owned()))?;
             let thread = Thread::from_json(main_content_container, j_thread_obj)?;
             self.threads.push(thread);
+        }
+
+        if self.threads.is_empty() {
+            return Err(StoryError::BadJson("Call stack without threads".to_owned()));
         }
 
         self.thread_counter = j_obj
